@@ -516,7 +516,7 @@ End Reader.
 
 (* tie the knot: a local symbol table is read through the Reader's own Next; inside it the
    context is never the top level, so the recursion is one level deep *)
-Definition input_fuel (r : rstate) : nat := S (S (length (b_in (r_bits r)))).
+Definition input_fuel (r : rstate) : nat := b_fuel (r_bits r).
 Definition r_next_inner (ts_ok : list N -> res unit) (r : rstate) : rstate * res bool :=
   r_next_with ts_ok (fun r0 => (r0, Panic)) (input_fuel r) r.
 Definition r_next (ts_ok : list N -> res unit) (r : rstate) : rstate * res bool :=
@@ -605,10 +605,10 @@ Definition r_op (ts_ok : list N -> res unit) (r : rstate) (o : rop) : rstate * o
 Fixpoint r_run (ts_ok : list N -> res unit) (r : rstate) (p : list rop) (acc : list (list N))
   : rstate * list (list N) :=
   match p with
-  | [] => (r, rev acc)
+  | [] => (r, rev_append acc [])
   | o :: p' => match r_op ts_ok r o with
                | (r', Some t) => r_run ts_ok r' p' (t :: acc)
-               | (r', None) => (r', rev (s "panic"%string :: acc))
+               | (r', None) => (r', rev_append (s "panic"%string :: acc) [])
                end
   end.
 
@@ -673,6 +673,6 @@ Fixpoint traverse_loop (ts_ok : list N -> res unit) (fuel : nat) (r : rstate) (d
 Definition traverse (ts_ok : list N -> res unit) (inp : list N) (ioerr : bool) : list (list N) * N :=
   let r := r_init inp ioerr in
   let '(r, acc, pan) := traverse_loop ts_ok (4 * length inp + 16) r 0 [] in
-  if pan then (rev acc, b_alloc (r_bits r)) else
+  if pan then (rev_append acc [], b_alloc (r_bits r)) else
   let '(r, tail) := r_run ts_ok r [OErr; ONext; OErr; ONext; OErr] [] in
-  (rev acc ++ tail, b_alloc (r_bits r)).
+  (rev_append acc [] ++ tail, b_alloc (r_bits r)).
